@@ -32,6 +32,8 @@ def jobs(tier):
     out += [
         mk('C11', 'errors/parent/sync', S.errors('ValueError', 'parent', sync=True), witnesses=W),
         mk('C11', 'errors/parent/ret_exc', S.errors('KeyError', 'parent', ret_exc=True), witnesses=W),
+        mk('C11', 'errors/parent/ret_exc/typed', S.errors('KeyError', 'parent', ret_exc=True, root_cls='TI'), witnesses=W),
+        mk('C11', 'errors/parent/raise/typed', S.errors('ValueError', 'parent', root_cls='TI'), witnesses=W),
         mk('C11', 'errors/awaited_child', S.errors('ValueError', 'awaited_child'), witnesses=W),
         mk('C11', 'errors/ff_child', S.errors('Custom', 'ff_child'), witnesses=W),
         mk('C11', 'errors/forwarded', fw_error(), witnesses=W),
